@@ -12,6 +12,8 @@ HARNESSES = [
     H("c19_dump::g_dump_fresh", desc="generate_dump emits every directory entry together with the flush of its stream (write_to_file(Some)), never entry-only, and each entry lies inside what is flushed with it", loops={"MINIDUMP_EXCEPTION": 20, "alloc_from_array": 8}, timeout=2400, est_gb=8, mem_gb=24),
     H("c19_dump::c10_dump_crash_anywhere", desc="byte-level: the real 18-stream generate_dump + real DirSection, destination dies at a symbolic call", loops=SK, timeout=3400, est_gb=20, mem_gb=40, fs_array=1024, tier="thorough"),
     H("c09_dir_section::c10_crash_two_streams", loops=L, desc="crash anywhere in a 2-stream dump"),
+    H("c09_dir_section::c10_crash_two_streams_appending", loops=L, desc="crash anywhere in a 2-stream dump appended at a symbolic offset 0..8 of the destination", timeout=1200),
+    H("c09_dir_section::c10_crash_aux_flush_appending", loops=L, desc="the same with an entry-less flush between streams", timeout=1200),
     H("c09_dir_section::c10_crash_three_streams", loops=L, desc="crash anywhere in a 3-stream dump", tier="thorough"),
     H("c09_dir_section::c10_crash_aux_flush", loops=L, desc="crash anywhere, with an entry-less flush between streams"),
     H("c09_dir_section::c10_crash_empty_stream", loops=L, desc="crash anywhere, first stream empty"),
